@@ -166,7 +166,7 @@ def build_spec_graphs(case, G):
     pos = {u: i for i, u in enumerate(nodes)}
     for a, b, r, mode in spont:
         attrs = {'rate': r}
-        if mode == 'label' and nwl:
+        if mode == 'label' and nwl is not None:
             attrs['weight_label'] = nwl
         elif mode == 'fn':
             attrs['rate_function'] = (lambda G_, node: 0.5 + (pos[node] % 3))
@@ -174,7 +174,7 @@ def build_spec_graphs(case, G):
     J = nx.DiGraph()
     for a, b, c, r, mode in induced:
         attrs = {'rate': r}
-        if mode == 'label' and ewl:
+        if mode == 'label' and ewl is not None:
             attrs['weight_label'] = ewl
         elif mode == 'fn':
             attrs['rate_function'] = (lambda G_, source, target: 0.25 + ((pos[source] + 2 * pos[target]) % 4) / 2.0)
@@ -193,6 +193,12 @@ def build(case, full, budget=None, G=None, extra=None):
     R0 = [oracles.tolabel(u) for u in case.get('R0') or []]
     tmin, tmax = case['tmin'], tmax_of(case)
     kw = dict(tmin=tmin, tmax=tmax, return_full_data=full)
+    if case.get('omit_defaults'):
+        # leave documented defaults to the callee: tmin=0 everywhere, tmax=inf for the SIR simulators
+        if tmin == 0:
+            del kw['tmin']
+        if case['tmax'] == 'inf' and KIND[sim] == 'SIR':
+            del kw['tmax']
     if case.get('sim_kwargs'):
         # pass-through options for the returned Simulation_Investigation (caller-owned dict, must come back untouched)
         kw['sim_kwargs'] = {'tex': False, 'pos': {oracles.tolabel(u): (i, -i) for i, u in enumerate(case['gc']['nodes'])}}
@@ -208,9 +214,9 @@ def build(case, full, budget=None, G=None, extra=None):
                 kw['initial_recovereds'] = iter(list(R0)) if case['R0_one_shot'] == 'iter' else (u for u in list(R0))
     f = getattr(EoN, sim)
     if sim in WEIGHTED:
-        if case.get('ew'):
+        if case.get('ew') is not None:
             kw['transmission_weight'] = case['ew']
-        if case.get('nw'):
+        if case.get('nw') is not None:
             kw['recovery_weight'] = case['nw']
         return f, [G, case['tau'], case['gamma']], kw
     if sim in ('fast_nonMarkov_SIR', 'fast_nonMarkov_SIS'):
@@ -305,7 +311,7 @@ def sim_case(draw, sims=SIMS, nmax=25, labels=('int', 'perm', 'str', 'tuple'), f
     n = len(nodes)
     allow_R = sim in HAS_R0 if force_R0 is None else (force_R0 and sim in HAS_R0)
     I0, R0 = draw(gen.initial_sets(nodes, allow_R=allow_R))
-    tmin = draw(st.sampled_from([0, 0, -1.5, 2, 2.5]))
+    tmin = draw(st.sampled_from([0, 0, 0, -1.5, 2, 2.5, -1.5, 2, 2.5] + ([1.6e9] if sim not in DISCRETE else [])))      # 1.6e9: epoch seconds as the clock
     disc = sim in DISCRETE
     if kind == 'SIS' or sim == 'Gillespie_complex_contagion' or (sim == 'Gillespie_simple_contagion'):
         tmax = tmin + draw(st.sampled_from([1, 2, 2.5, 4, 4, 2 ** -20] if not disc else [1, 2, 3, 2.5]))
@@ -324,6 +330,8 @@ def sim_case(draw, sims=SIMS, nmax=25, labels=('int', 'perm', 'str', 'tuple'), f
             case['nw'] = list(gc['nw'])[0]
     if draw(st.integers(0, 4)) == 0:
         case['sim_kwargs'] = True
+    if draw(st.integers(0, 3)) == 0:
+        case['omit_defaults'] = True
     if sim == 'discrete_SIR' and draw(st.integers(0, 2)) == 0:
         case['rec_steps'] = [draw(st.integers(1, 3)) for _ in nodes]
     if sim in ('fast_nonMarkov_SIR', 'fast_nonMarkov_SIS'):
@@ -364,7 +372,7 @@ def large_case(draw, sim):
     The graph is a pure function of a few drawn integers (too big to draw edge by edge)."""
     case = draw(sim_case(sims=[sim], nmax=4))
     n = draw(st.sampled_from([70, 100, 150]))
-    shape = draw(st.sampled_from(['star', 'double-star', 'complete', 'hub-ring', 'sparse+hub']))
+    shape = draw(st.sampled_from(['star', 'double-star', 'complete', 'hub-ring', 'sparse+hub', 'path']))
     R = random.Random(draw(st.integers(0, 10 ** 6)))
     if shape == 'complete':
         n = 70
@@ -375,6 +383,8 @@ def large_case(draw, sim):
         es = [(0, 1)] + [(i % 2, i) for i in idx[2:]]
     elif shape == 'complete':
         es = [(i, j) for i in idx for j in idx[i + 1:]]
+    elif shape == 'path':           # an outbreak started at one end can last more than 100 generations
+        es = [(i, i + 1) for i in idx[:-1]]
     elif shape == 'hub-ring':
         es = [(0, i) for i in idx[1:]] + [(i, i + 1) for i in idx[1:-1]]
     else:
@@ -410,6 +420,9 @@ def large_case(draw, sim):
     if draw(st.booleans()) and lab[0] not in I0:
         I0.append(lab[0])                       # the hub starts infected
     case['I0'], case['R0'] = I0, []
+    if shape == 'path' and draw(st.booleans()):
+        case['I0'] = [lab[0]]
+        case['p'] = 1.0
     case['tau'] = draw(st.sampled_from([0.5, 2.0]))
     case['gamma'] = draw(st.sampled_from([0.5, 1.0]))
     if KIND[sim] != 'SIR' or case['tmax'] != 'inf':
